@@ -455,6 +455,10 @@ func (w *ssWorld) connect(o ssConnectOpts) bool {
 	if sawTicket != nil {
 		via = "ticket"
 		c.Feature("ticket-handshake-used")
+		if age := time.Since(issuedAt[sawTicket]); age > 7*24*time.Hour+time.Minute {
+			c.Violate("C15/expired-ticket-used", "%v: the client presented a session ticket %v after it was issued (lifetime is 7 days); it must fall back to UniformDH", w.hist, age)
+			return false
+		}
 	}
 	w.hist[len(w.hist)-1] += "=" + via
 	switch {
